@@ -8,7 +8,7 @@
    (identity for MemoryStorage).  When a callable fails nothing is changed (the None case). *)
 From Coq Require Import List ZArith NArith Bool.
 From TF Require Import Base Query Index DB Spec proofs.IndexDefs proofs.BaseP proofs.RepP proofs.DBReadP proofs.DBRemoveP
-     proofs.DBStepP proofs.DBRunP proofs.DBSpecP.
+     proofs.DBStepP proofs.DBRunP proofs.DBSpecP proofs.UpdateP.
 Import ListNotations.
 
 Theorem C03_update_exact : forall E C norm, (forall p, wf_point p -> wf_point (norm p)) ->
@@ -39,6 +39,35 @@ Theorem C03_shape : forall C norm u (sel : point -> bool) rows l n,
   n = length (filter (fun p => sel p && match perform_update C u p with UOk p' => negb (point_eqb p' p) | UFail _ => false end) rows).
 Proof. exact spec_update_rows_shape. Qed.
 
+(* merge semantics *)
+Theorem C03_merge_key_by_key : forall (V : Type) k (o d : list (str * V)), dsorted o = true ->
+  dget k (dupdate d o) = match dget k o with Some v => Some v | None => dget k d end.
+Proof. exact (@dget_dupdate). Qed.
+Theorem C03_merge_never_drops_a_key : forall (V : Type) k (o d : list (str * V)), dsorted o = true -> dget k d <> None -> dget k (dupdate d o) <> None.
+Proof. exact (@dupdate_keeps_keys). Qed.
+Theorem C03_unset_removes_keys : forall (V : Type) k ks (d : list (str * V)), dsorted d = true ->
+  dget k (fold_left (fun d k' => ddel k' d) ks d) = if existsb (str_eqb k) ks then None else dget k d.
+Proof. exact (@dget_unset). Qed.
+(* tags of an updated point: unset wins over a value set by the same call, the argument over the stored value *)
+Theorem C03_tags_semantics : forall C u p p' t, wf_point p -> u_tags u = UStatic t -> dsorted t = true ->
+  perform_update C u p = UOk p' ->
+  forall k, dget k (p_tags p') = if existsb (str_eqb k) (u_unset_tags u) then None
+                                 else match dget k t with Some v => Some v | None => dget k (p_tags p) end.
+Proof. exact update_tags_semantics. Qed.
+Theorem C03_static_is_callable_tags : forall C u p t id, u_tags u = UStatic t -> (forall d, c_tags C id d = Some t) ->
+  perform_update C u p = perform_update C (mkUpd (u_time u) (u_meas u) (UCall id) (u_fields u) (u_unset_fields u) (u_unset_tags u)) p.
+Proof. exact static_is_constant_callable_tags. Qed.
+Theorem C03_static_is_callable_fields : forall C u p f id, u_fields u = UStatic f -> (forall d, c_fields C id d = Some f) ->
+  perform_update C u p = perform_update C (mkUpd (u_time u) (u_meas u) (u_tags u) (UCall id) (u_unset_fields u) (u_unset_tags u)) p.
+Proof. exact static_is_constant_callable_fields. Qed.
+Theorem C03_static_is_callable_time : forall C u p t id, u_time u = UStatic t -> (forall x, c_time C id x = Some t) ->
+  perform_update C u p = perform_update C (mkUpd (UCall id) (u_meas u) (u_tags u) (u_fields u) (u_unset_fields u) (u_unset_tags u)) p.
+Proof. exact static_is_constant_callable_time. Qed.
+
 Print Assumptions C03_update_exact.
+Print Assumptions C03_merge_key_by_key.
+Print Assumptions C03_unset_removes_keys.
+Print Assumptions C03_tags_semantics.
+Print Assumptions C03_static_is_callable_tags.
 Print Assumptions C03_update_all_exact.
 Print Assumptions C03_shape.
